@@ -58,15 +58,15 @@ func init() {
 	crashTech := "deterministic simulation with fault injection: the workload runs once on the journalling disk, then the directory is rebuilt as of every journal position (process crash) and, for a seeded subset, with unsynced file tails cut (power loss); the real Open runs on each image; "
 	meta("C03", "fault_enumeration", crashTech+"recovered dump must equal an allowed prefix state, and the recovered database must stay usable",
 		NontrivialRuleText["C03"], 2000, 30000,
-		[]string{"fault_process_crash_images", "fault_power_loss_images", "fault_torn_write_images", "images_ok", "usability_rounds", "rotations"},
+		[]string{"fault_process_crash_images", "fault_power_loss_images", "fault_torn_write_images", "images_ok", "usability_rounds", "rotations", "cc_groups", "cc_merges", "cc_images_with_inflight_ops"},
 		"power loss loses a not-yet-synced tail of a file from the end only (no reordering inside the tail, no sector garbage)")
 	meta("C04", "fault_enumeration", crashTech+"a batch is one mutation of the prefix oracle, so a partial batch equals no allowed state",
 		NontrivialRuleText["C04"], 500, 6000,
-		[]string{"fault_process_crash_images", "fault_power_loss_images", "images_ok", "batches", "sync_batches", "rotations"},
+		[]string{"fault_process_crash_images", "fault_power_loss_images", "images_ok", "batches", "sync_batches", "rotations", "cc_batches", "cc_merges"},
 		"power loss loses a not-yet-synced tail of a file from the end only")
 	meta("C07", "fault_enumeration", crashTech+"two levels deep for Merge and adoption: every position of the recovery Open is crashed again, then a clean Open",
 		NontrivialRuleText["C07"], 500, 8000,
-		[]string{"fault_process_crash_images", "fault_second_crash_images", "images_ok", "merges", "reopen_after_recovery"},
+		[]string{"fault_process_crash_images", "fault_second_crash_images", "images_ok", "merges", "reopen_after_recovery", "cc_merges", "second_merge_rounds"},
 		"process crash only (the property says 'the process dies')")
 	meta("C11", "exploration", "deterministic simulation (fault-free, one client): the exported datafile API is driven on the simulated disk through both I/O back-ends in lock-step; record start offsets and end distances are aimed using file sizes observed at the disk seam; round-trip, positions, sizes, logical==physical and byte-identity of the back-ends are checked",
 		NontrivialRuleText["C11"], 6000, 32768,
@@ -98,7 +98,7 @@ func init() {
 		[]string{"iter_sessions_multi", "iter_seeks", "iter_rewinds", "iter_nexts", "iter_interleaved_writes", "lists", "folds"})
 	meta("C13", "exploration", seqTech+"unsynced-bytes invariants of the journalled disk model evaluated at every return",
 		NontrivialRuleText["C13"], 20000, 500000,
-		[]string{"always_checks", "threshold_checks", "sync_batch_checks", "all_synced_checks", "rotations_checked"},
+		[]string{"always_checks", "threshold_checks", "sync_batch_checks", "all_synced_checks", "rotations_checked", "cc_syncs", "cc_batches"},
 		"for mmap files 'flushed' means covered by an msync issued after the store; msync makes the whole mapping durable")
 	meta("C14", "exploration", seqTech+"differential: one generated program executed under 2..4 configurations on separate simulated disks with the same simulated clock; transcripts (and bytes when the layout is equal) must be identical",
 		NontrivialRuleText["C14"], 8000, 120000,
@@ -110,13 +110,13 @@ func init() {
 		"pool-mediated aliasing is made reproducible by the deterministic LIFO replacement of sync.Pool")
 	meta("C17", "exploration", seqTech+"Stat recomputed at every step by scanning the files with the package's own reader",
 		NontrivialRuleText["C17"], 8000, 100000,
-		[]string{"stat_checks", "batches", "merges", "restarts", "oversized_files_ok", "rotations"})
+		[]string{"stat_checks", "batches", "merges", "restarts", "oversized_files_ok", "rotations", "sched_switches"})
 	meta("C18", "exploration", seqTech+"hint entries decoded and compared with a scan of the merged files; hint-path Open vs scan-path Open",
 		NontrivialRuleText["C18"], 8000, 100000,
-		[]string{"hint_checks", "hint_multi_file_output", "hint_vs_scan_opens"})
+		[]string{"hint_checks", "hint_multi_file_output", "hint_vs_scan_opens", "conc_merges"})
 	meta("C16", "exploration", concTech+"parties are in-process opener tasks plus one real child process driven in lock-step over a pipe (the scheduler decides whose turn it is); Open/Close outcomes are checked with porcupine against a single-holder lock model; a janitor task damages and repairs an older data file so that Opens fail after taking the lock; rejected Opens must leave the journal / directory hash unchanged",
 		NontrivialRuleText["C16"], 4000, 120000,
-		[]string{"opens_ok", "opens_rejected", "opens_failed_other", "closes", "rejected_open_dir_unchanged", "rejected_open_dir_unchanged_peer", "holder_token_writes", "lock_history_checks", "final_opens", "fault_damage_older_file", "stale_closes"},
+		[]string{"opens_ok", "opens_rejected", "opens_failed_other", "closes", "rejected_open_dir_unchanged", "rejected_open_dir_unchanged_peer", "holder_token_writes", "lock_history_checks", "final_opens", "fault_damage_older_file", "stale_closes", "holder_work_0"},
 		"flock(2) between two open file descriptions behaves the same within and across processes (the child-process party checks the cross-process half directly)", "the garbage collector is off during a run so that a leaked lock is not released by a finalizer")
 	meta("C19", "exploration", seqTech+"the data-type layer is driven with the simulated clock (TTL boundaries hit at expiry-1ns / expiry / expiry+1ns) and restarts; normalised replies vs an abstract-type reference model",
 		NontrivialRuleText["C19"], 60000, 1200000,
@@ -124,5 +124,5 @@ func init() {
 		"an emptied collection keeps its type (the statement does not say it vanishes)", "a non-string command on a string that expired but was not deleted may answer as on a live string or as on an absent key")
 	meta("C20", "exploration", seqTech+"Backup as a generated step; the copy is opened while the source stays open and compared with the reference map",
 		NontrivialRuleText["C20"], 6000, 200000,
-		[]string{"backups", "backups_mmap"})
+		[]string{"backups", "backups_mmap", "backups_into_older_backup"})
 }
